@@ -487,6 +487,11 @@ func registerMisc(t map[string]intrinsic) {
 	t["github.com/miekg/dns.id"] = func(ex *Exec, caller *frame, fn *ssa.Function, args []Value) (Value, *goPanic) {
 		return ex.fresh("dns.id", 16), nil
 	}
+	nilSliceNilErr := func(ex *Exec, caller *frame, fn *ssa.Function, args []Value) (Value, *goPanic) {
+		return Tuple{Slice{}, Iface{}}, nil
+	}
+	t["net.Interfaces"] = nilSliceNilErr
+	t["net.InterfaceAddrs"] = nilSliceNilErr
 	t["os.LookupEnv"] = lookupEnv
 	t["syscall.Getenv"] = lookupEnv
 	t["os.Getenv"] = func(ex *Exec, caller *frame, fn *ssa.Function, args []Value) (Value, *goPanic) {
